@@ -30,13 +30,15 @@ class HarnessError(Exception):
     pass
 
 
-def explore(harness, make_ctx, per_path_timeout=30.0, timeout=120.0, max_paths=100000, max_cex=8):
+def explore(harness, make_ctx, per_path_timeout=30.0, timeout=120.0, max_paths=100000, max_cex=8, format_tokens=True):
     """
     Explore all paths of ``harness(ctx)``.  Returns a dict:
       verdict: 'confirmed' | 'counterexample' | 'inconclusive' | 'error'
       paths, paths_ok, paths_pruned, paths_unknown, cex (list of records), witnesses, ...
     """
-    sc.install_all()
+    if format_tokens:
+        sc.install_format_patches()
+    sc.install_quot()
     search_root = RootNode()
     t_start = process_time()
     w_start = time.time()
